@@ -32,6 +32,10 @@ func runAccessor(cx *Ctx, fn *ssa.Function, recvPrefix string) *accessorRun {
 	tr := dom.NewTrace(c)
 	in := absint.New(cx.P, c, tr)
 	in.AddSymbolicRoot("recv", recvPrefix)
+	in.InterpretExternal = map[string]bool{
+		"(encoding/binary.littleEndian).PutUint16": true, "(encoding/binary.bigEndian).PutUint16": true,
+		"(encoding/binary.littleEndian).Uint16": true, "(encoding/binary.bigEndian).Uint16": true,
+	}
 	var args []absint.Value
 	for i, p := range fn.Params {
 		if i == 0 {
